@@ -1,4 +1,6 @@
 import BM.Sanitize
+import BM.Entry
+import BM.Props.C16
 /-
   C15: all entry points agree.  In the model the four entry points are defined on top of
   one function of the concatenated input (`sanitizeCore`): `Sanitize`/`SanitizeBytes` add
@@ -30,6 +32,27 @@ theorem C15_chunking (p : Policy) (c1 c2 : List Bytes) (h : c1.flatten = c2.flat
 theorem C15_blank (p : Policy) (input : Bytes) (hb : (Css.trimSpace input).isEmpty = true) :
     p.sanitize input = input := by
   simp [Policy.sanitize, hb]
+
+/-! ### the entry points as sanitize.go writes them (BM/Entry.lean) -/
+
+/-- a reader that ends with io.EOF into a buffer: the funnel's bytes -/
+theorem sanitizeReaderM_eof (p : Policy) (d : Bytes) : p.sanitizeReaderM d .eof = p.sanitizeCore d := by
+  unfold Policy.sanitizeReaderM Policy.sanitizeRW Policy.sanitizeCore Policy.sanitizeTokens
+  simp [feed_none]
+
+/-- **C15**: `Sanitize` / `SanitizeBytes`, written as blank check + `SanitizeReader` over the input,
+    are the function `Policy.sanitize` every other theorem speaks about -/
+theorem C15_sanitize_is_entry (p : Policy) (input : Bytes) : p.sanitizeEntry input = p.sanitize input := by
+  unfold Policy.sanitizeEntry Policy.sanitize
+  rw [sanitizeReaderM_eof]
+
+/-- **C15**: what `SanitizeReaderToWriter` hands to a destination that never fails, from a reader
+    that ends with io.EOF, is — write by write, so whether or not the destination implements
+    `WriteString` — the bytes `SanitizeReader` returns -/
+theorem C15_writer_agrees (p : Policy) (d : Bytes) :
+    (p.sanitizeRW d .eof none false).2 = false ∧ (p.sanitizeRW d .eof none false).1.flatten = p.sanitizeReaderM d .eof := by
+  unfold Policy.sanitizeReaderM Policy.sanitizeRW
+  simp [feed_none]
 
 example : (Css.trimSpace b!" \r\n\t").isEmpty = true := by decide
 example : (Css.trimSpace b!" x ") = b!"x" := by decide
